@@ -428,8 +428,16 @@ class _World:
             self.raw = sqlite3.connect(self.path, timeout=30, isolation_level=None)
         if first:
             from stabilize.persistence.sqlite.operations import mark_message_processed
-            for i in self.case["d0"]:   # processed by an earlier life of the process
-                mark_message_processed(self.raw_txn(), self.case["ids"][i], "earlier", None)
+            # the execution the processed records belong to: absent, live, or already FINISHED (a finished workflow's
+            # messages can still be redelivered - e.g. an un-acked CompleteWorkflow - and must still be recognised).
+            # A function of the case, no random draw: the case stream is unchanged.
+            est = ["absent", "RUNNING", "SUCCEEDED", "TERMINAL", "CANCELED"][(len(self.case["ids"]) + len(self.case["d0"])) % 5]
+            self.exec_status = est
+            if est != "absent":
+                self.raw.execute("INSERT OR IGNORE INTO pipeline_executions (id, type, application, name, status) "
+                                 "VALUES ('e', 'PIPELINE', 'verif', 'verif', ?)", (est,))
+            for k, i in enumerate(self.case["d0"]):   # processed by an earlier life of the process
+                mark_message_processed(self.raw_txn(), self.case["ids"][i], "earlier", ("e" if k % 2 == 0 else None))
             if self.case["queue_mode"]:
                 from stabilize.queue.messages import StartWorkflow
                 for i, _ in enumerate(self.case["ids"]):
